@@ -219,6 +219,12 @@ func unmarshalUnknownValue(dec *msgpack.Decoder, ty cty.Type, path cty.Path) (re
 	}
 
 	builder := cty.UnknownVal(ty).Refine()
+	// What the length bounds and the nullness seen so far amount to: a
+	// not-null list whose two length bounds meet is not unknown at all (the
+	// refinement builder turns it into a known list with that many
+	// elements), so it can't come from our encoder and its length must not
+	// be taken on trust from the input.
+	notNull, minLen, maxLen := false, 0, math.MaxInt
 	for i := 0; i < entryCount; i++ {
 		// Our refinement encoding format uses compact msgpack primitives to
 		// minimize the encoding size of refinements, which could otherwise
@@ -261,6 +267,7 @@ func unmarshalUnknownValue(dec *msgpack.Decoder, ty cty.Type, path cty.Path) (re
 				builder = builder.Null()
 			} else {
 				builder = builder.NotNull()
+				notNull = true
 			}
 		case unknownValStringPrefix:
 			if ty != cty.String {
@@ -289,8 +296,14 @@ func unmarshalUnknownValue(dec *msgpack.Decoder, ty cty.Type, path cty.Path) (re
 			switch keyCode {
 			case unknownValLengthMin:
 				builder = builder.CollectionLengthLowerBound(bound)
+				if bound > minLen {
+					minLen = bound
+				}
 			case unknownValLengthMax:
 				builder = builder.CollectionLengthUpperBound(bound)
+				if bound < maxLen {
+					maxLen = bound
+				}
 			default:
 				panic("unsupported keyCode") // should not get here
 			}
@@ -335,6 +348,10 @@ func unmarshalUnknownValue(dec *msgpack.Decoder, ty cty.Type, path cty.Path) (re
 	// map in case we want to pack something else in there later or in case
 	// a future version wants to use padding to optimize storage. Current
 	// encoders should not add any extra content there, though.
+
+	if notNull && ty.IsListType() && minLen == maxLen && minLen > 0 {
+		return cty.DynamicVal, path.NewErrorf("invalid refinements for unknown value: a list of known length is not unknown")
+	}
 
 	return builder.NewValue(), nil
 }
